@@ -108,6 +108,8 @@ impl TaskManager {
 						log::debug!("Memtable flush task: no immutables to flush");
 					}
 
+					#[cfg(feature = "verif")]
+					crate::verif::point("task.flush.before_idle");
 					running.store(false, Ordering::SeqCst);
 				}
 			});
@@ -145,6 +147,8 @@ impl TaskManager {
 						log::debug!("Level compaction completed successfully");
 						write_stall.signal_work_done();
 					}
+					#[cfg(feature = "verif")]
+					crate::verif::point("task.level.before_idle");
 					running.store(false, Ordering::SeqCst);
 				}
 			});
@@ -162,6 +166,10 @@ impl TaskManager {
 	}
 
 	pub(crate) fn wake_up_memtable(&self) {
+		#[cfg(feature = "verif")]
+		if crate::verif::manual_background() {
+			return;
+		}
 		// Only notify if not already running
 		if !self.memtable_running.load(Ordering::Acquire) {
 			self.memtable_notify.notify_one();
@@ -169,10 +177,25 @@ impl TaskManager {
 	}
 
 	pub(crate) fn wake_up_level(&self) {
+		#[cfg(feature = "verif")]
+		if crate::verif::manual_background() {
+			return;
+		}
 		// Only notify if not already running
 		if !self.level_running.load(Ordering::Acquire) {
 			self.level_notify.notify_one();
 		}
+	}
+
+	#[cfg(feature = "verif")]
+	pub(crate) fn verif_running(&self) -> (bool, bool) {
+		(self.memtable_running.load(Ordering::Acquire), self.level_running.load(Ordering::Acquire))
+	}
+
+	#[cfg(feature = "verif")]
+	pub(crate) fn verif_force_wake(&self) {
+		self.memtable_notify.notify_one();
+		self.level_notify.notify_one();
 	}
 
 	pub async fn stop(&self) {
